@@ -207,9 +207,13 @@ def gen_history(rng, nops):
         if f["kind"] == "bit":
             op["indices"] = f["idx"] + (rng.sample(f["idx"], 1) if f["idx"] and rng.random() < 0.3 else [])
             op["counts"] = None
+            if rng.random() < 0.08:
+                op["indices"] = op["indices"] + [rng.choice([bits, bits, bits + 1, 2 * bits])]     # a position beyond the last one: refused
         else:
             how = rng.choice(["both", "counts", "indices"])
             op["indices"] = None if how == "counts" else (f["idx"] + (rng.sample(f["idx"], 1) if f["idx"] and how == "indices" else []))
+            if how == "indices" and rng.random() < 0.1:
+                op["indices"] = op["indices"] + [rng.choice([bits, bits + 1])]
             op["counts"] = None if how == "indices" else f["cnt"]
         return op
 
